@@ -12,6 +12,19 @@ Oracle: accept iff lo <= v <= hi (range measured by gcc); accepted => read-back
 are untouched; rejected => OverflowError, all bytes untouched, the C function
 was not called; a callback / extern "Python" function returning an
 out-of-range value => the C caller receives the error= value (0 by default).
+
+Families added after the audit (.cache/audit/C03.md), all with the same oracle:
+  * onerror= handlers on ffi.callback / def_extern returning None, lo, hi, lo-1, hi+1 and hi+2**64 (the handler's
+    result is a second integer store into the result slot; a rejected one leaves the error value there);
+  * API-mode-only types whose size and signedness come from the C compiler: 8 "typedef int... T;" and 4 partial
+    enums "enum e { A, ... };" whose hidden enumerators decide the base type;
+  * slice assignment (list, tuple, iterator, through a pointer, and a two-item slice whose second item is rejected);
+  * initializer container forms (struct from list/tuple, union from dict/list, array member, tuple and open-length
+    array);
+  * call-argument shapes (8th argument, fixed argument of a variadic function with and without extra arguments,
+    list/tuple passed for a "T *" parameter);
+  * error= values themselves (B(T): OverflowError iff out of range, else it is what C receives on failure);
+  * value kinds: bool and an int subclass besides exact int.
 """
 import contextlib
 import ctypes
@@ -29,12 +42,19 @@ META = dict(
     engine="E1-enum", level="exploration",
     technique="exhaustive enumeration of integer type x store path x boundary value set against gcc-measured ranges, "
               "memory images read through ctypes",
-    text="All 46 integer types (10 standard, _Bool, 31 <stdint.h>/<stddef.h> names, 4 enums) x 34 store paths (new, "
-         "array item, p[i]=v, struct field, struct initializer, global variable and call argument through in-line ABI, "
-         "out-of-line ABI and API mode, libffi call of an API function, variadic cdata argument, ffi.callback result, "
-         "extern \"Python\" result) x B(T) (every range bound and its neighbours, +-2^k+-1 up to 2^128, +-10^30): "
-         "acceptance iff in range, exact read-back, byte image, untouched neighbours, OverflowError on rejection, "
-         "error value on bad callback results.",
+    text="All 46 integer types (10 standard, _Bool, 31 <stdint.h>/<stddef.h> names, 4 enums) x 110 store paths (new "
+         "from a value / list / tuple / open-length array, struct and union initializers as dict / list / tuple incl. "
+         "an array member, array item, p[i]=v, slice assignment from list / tuple / iterator / through a pointer / two "
+         "items with a rejected second one, struct field, global variable and call argument through in-line ABI, "
+         "out-of-line ABI and API mode, libffi call of an API function, 8th argument, fixed argument of a variadic "
+         "function with and without extra arguments, list / tuple passed for a T* parameter, variadic cdata argument, "
+         "ffi.callback and extern \"Python\" results without / with error= and with onerror= handlers returning None, "
+         "lo, hi, lo-1, hi+1, hi+2^64, and the error= value itself), and 12 API-mode-only types whose size and "
+         "signedness come from the C compiler (8 'typedef int... T', 4 partial enums) x their 48 API-mode paths, x "
+         "B(T) (every range bound and its neighbours, +-2^k+-1 up to 2^128, +-10^30) as exact ints plus False/True "
+         "and an int subclass at the bounds: acceptance iff in range, exact read-back, byte image, untouched "
+         "neighbours, OverflowError on rejection, error value (or the handler's in-range replacement) on bad callback "
+         "results.",
     note="gcc 12 on this machine measures every range; ctypes reads memory and the value received by C; little-endian "
          "two's complement images are derived from those measured sizes")
 
@@ -48,18 +68,40 @@ ENUMS = {
     "enum e_u8": "enum e_u8 { EU8_A = 0, EU8_B = 0x100000000 };",
 }
 
+# Types that exist in API mode only: cffi learns size and signedness from the C compiler (_cffi_prim_int(),
+# size_and_sign of partial enums), and _cffi_to_c_int() is instantiated with the user's type name.
+# name -> (cdef text, C text).  What the cdef shows of the partial enums (one enumerator, value 0) would suggest
+# 'unsigned int'; the hidden enumerators make them int / unsigned int / long / unsigned long.
+APIDEFS = {}
+for _bits, _n in ((8, 1), (16, 2), (32, 4), (64, 8)):
+    APIDEFS["c03_s%d_t" % _n] = ("typedef int... c03_s%d_t;" % _n, "typedef int%d_t c03_s%d_t;" % (_bits, _n))
+    APIDEFS["c03_u%d_t" % _n] = ("typedef int... c03_u%d_t;" % _n, "typedef uint%d_t c03_u%d_t;" % (_bits, _n))
+APIDEFS.update({
+    "enum pe_s4": ("enum pe_s4 { PES4_A, ... };", "enum pe_s4 { PES4_A, PES4_B = -5 };"),
+    "enum pe_u4": ("enum pe_u4 { PEU4_A, ... };", "enum pe_u4 { PEU4_A, PEU4_B = 0x80000000 };"),
+    "enum pe_s8": ("enum pe_s8 { PES8_A, ... };", "enum pe_s8 { PES8_A, PES8_B = -5, PES8_C = 0x100000000 };"),
+    "enum pe_u8": ("enum pe_u8 { PEU8_A, ... };", "enum pe_u8 { PEU8_A, PEU8_C = 0x100000000 };"),
+})
+
 HEADERS = "#include <stdint.h>\n#include <stddef.h>\n#include <sys/types.h>\n#include <stdarg.h>\n"
 
 BG = 0xA5
 GUARD = 8
+
+ALL_MODES = ("inline", "ool", "api")
 
 
 def ident(t):
     return t.replace(" ", "_")
 
 
+def modes_of(t):
+    """The FFI kinds in which the type can be declared."""
+    return ("api",) if t in APIDEFS else ALL_MODES
+
+
 def all_types():
-    """Every integer type name cffi accepts (taken from cffi's own table) + _Bool + enums."""
+    """Every integer type name cffi accepts (taken from cffi's own table) + _Bool + enums.  (Also used by C04.)"""
     from cffi import model
     names = [n for n, k in model.PrimitiveType.ALL_PRIMITIVE_TYPES.items() if k == "i"]
     rest = sorted(n for n in names if n not in STD and n != "_Bool")
@@ -69,9 +111,29 @@ def all_types():
     return STD + ["_Bool"] + rest + sorted(ENUMS)
 
 
+def api_only_types():
+    return sorted(APIDEFS)
+
+
+def c_defs(types):
+    return "".join((ENUMS[t] if t in ENUMS else APIDEFS[t][1]) + "\n" for t in types if t in ENUMS or t in APIDEFS)
+
+
+def cdef_defs(types, api):
+    out = []
+    for t in types:
+        if t in ENUMS:
+            out.append(ENUMS[t] + "\n")
+        elif t in APIDEFS:
+            if not api:
+                raise InfraError("%r can only be declared in API mode" % t)
+            out.append(APIDEFS[t][0] + "\n")
+    return "".join(out)
+
+
 def measure(types):
     """{type: (size, signed)} printed by gcc."""
-    src = HEADERS + "#include <stdio.h>\n" + "".join(ENUMS[t] + "\n" for t in types if t in ENUMS)
+    src = HEADERS + "#include <stdio.h>\n" + c_defs(types)
     src += "int main(void){\n"
     for t in types:
         src += 'printf("%%s|%%d|%%d\\n", "%s", (int)sizeof(%s), (int)(((%s)-1) < (%s)0));\n' % (t, t, t, t)
@@ -84,10 +146,7 @@ def measure(types):
 
 
 def c_source(types, facts):
-    out = [HEADERS]
-    for t in types:
-        if t in ENUMS:
-            out.append(ENUMS[t] + "\n")
+    out = [HEADERS, c_defs(types)]
     for t in types:
         i = ident(t)
         size, sg = facts[t]
@@ -95,6 +154,8 @@ def c_source(types, facts):
         prom = "int" if (size < 4 or t == "_Bool") else t
         out.append("""
 struct s_%(i)s { char pre[8]; %(t)s f; char post[8]; };
+union u_%(i)s { %(t)s f; char c[16]; };
+struct sa_%(i)s { char pre[8]; %(t)s a[1]; char post[8]; };
 struct s_%(i)s w_%(i)s = {{0}};
 extern %(t)s g_%(i)s;
 __asm__(".globl g_%(i)s\\n\\t.set g_%(i)s, w_%(i)s+8\\n\\t.type g_%(i)s, @object\\n\\t.size g_%(i)s, %(size)d");
@@ -103,6 +164,10 @@ __asm__(".globl g_%(i)s\\n\\t.set g_%(i)s, w_%(i)s+8\\n\\t.type g_%(i)s, @object
 %(t)s va_%(i)s(int n, ...) { va_list ap; %(prom)s x; va_start(ap, n); x = va_arg(ap, %(prom)s); va_end(ap);
     rec_%(i)s = (%(t)s)x; ncalls_%(i)s++; return (%(t)s)x; }
 %(t)s call_cb_%(i)s(%(t)s (*cb)(void)) { %(t)s r = cb(); rec_%(i)s = r; return r; }
+%(t)s last_%(i)s(int a1, int a2, int a3, int a4, int a5, int a6, int a7, %(t)s x) {
+    rec_%(i)s = x; ncalls_%(i)s++; return x; }
+%(t)s fx_%(i)s(%(t)s x, ...) { rec_%(i)s = x; ncalls_%(i)s++; return x; }
+%(t)s first_%(i)s(%(t)s *p) { rec_%(i)s = p[0]; ncalls_%(i)s++; return p[0]; }
 """ % dict(i=i, t=t, size=size, wide=wide, prom=prom))
     return "".join(out)
 
@@ -117,17 +182,19 @@ def c_source_api_extra(types):
 
 
 def cdef_text(types, api):
-    out = []
-    for t in types:
-        if t in ENUMS:
-            out.append(ENUMS[t] + "\n")
+    out = [cdef_defs(types, api)]
     for t in types:
         i = ident(t)
         out.append("struct s_%(i)s { char pre[8]; %(t)s f; char post[8]; };\n"
+                   "union u_%(i)s { %(t)s f; char c[16]; };\n"
+                   "struct sa_%(i)s { char pre[8]; %(t)s a[1]; char post[8]; };\n"
                    "extern %(t)s g_%(i)s;\n"
                    "%(t)s id_%(i)s(%(t)s);\n"
                    "%(t)s va_%(i)s(int, ...);\n"
-                   "%(t)s call_cb_%(i)s(%(t)s (*)(void));\n" % dict(i=i, t=t))
+                   "%(t)s call_cb_%(i)s(%(t)s (*)(void));\n"
+                   "%(t)s last_%(i)s(int, int, int, int, int, int, int, %(t)s);\n"
+                   "%(t)s fx_%(i)s(%(t)s, ...);\n"
+                   "%(t)s first_%(i)s(%(t)s *);\n" % dict(i=i, t=t))
         if api:
             out.append('extern "Python" %(t)s ep_%(i)s(void);\n%(t)s call_ep_%(i)s(void);\n' % dict(i=i, t=t))
     return "".join(out)
@@ -135,7 +202,7 @@ def cdef_text(types, api):
 
 def compile_universe(job):
     """Generate and compile one universe module.  job = (types, facts, tag, directory, extra compiler flags);
-    returns what Universe needs."""
+    returns what Universe needs.  The ABI-mode FFIs only see the types that can be declared there."""
     import cffi
     types, facts, tag, d, cflags = job
     os.makedirs(d, exist_ok=True)
@@ -146,7 +213,7 @@ def compile_universe(job):
     so = fb.compile(tmpdir=d)
     oname = "_c03o_%s" % tag
     fo = cffi.FFI()
-    fo.cdef(cdef_text(types, False))
+    fo.cdef(cdef_text([t for t in types if t not in APIDEFS], False))
     fo.set_source(oname, None)
     opath = os.path.join(d, oname + ".py")
     with contextlib.redirect_stdout(io.StringIO()):     # cffi announces the file name on stdout
@@ -167,13 +234,17 @@ class Universe(object):
         self.api_ffi, self.api_lib = mod.ffi, mod.lib
         # in-line ABI
         self.abi_ffi = cffi.FFI()
-        self.abi_ffi.cdef(cdef_text(types, False))
+        self.abi_ffi.cdef(cdef_text([t for t in types if t not in APIDEFS], False))
         self.abi_lib = self.abi_ffi.dlopen(so)
         # out-of-line ABI
         omod = _import(oname, opath)
         self.ool_ffi = omod.ffi
         self.ool_lib = omod.ffi.dlopen(so)
         self.cdll = ctypes.CDLL(so)
+
+    def ffi_lib(self, mode):
+        return {"inline": (self.abi_ffi, self.abi_lib), "ool": (self.ool_ffi, self.ool_lib),
+                "api": (self.api_ffi, self.api_lib)}[mode]
 
 
 def build_universes(types, facts, tag, cflags=()):
@@ -196,7 +267,12 @@ def _import(name, path):
 def type_class(t, size, sg):
     if t == "_Bool":
         return "bool"
-    return ("enum_" if t in ENUMS else "") + ("s" if sg else "u") + str(8 * size)
+    pre = ""
+    if t in ENUMS:
+        pre = "enum_"
+    elif t in APIDEFS:
+        pre = "partial_enum_" if t.startswith("enum ") else "apitypedef_"
+    return pre + ("s" if sg else "u") + str(8 * size)
 
 
 def value_class(v, lo, hi):
@@ -209,6 +285,21 @@ def value_class(v, lo, hi):
 
 def encode(v, size):
     return (v & ((1 << (8 * size)) - 1)).to_bytes(size, sys.byteorder)
+
+
+class IntSub(int):
+    """A Python int that is not an exact int."""
+
+
+def make_obj(vk, v):
+    """The object handed to cffi for the value v of kind vk."""
+    if vk == "int":
+        return v
+    if vk == "bool":
+        return bool(v)
+    if vk == "intsub":
+        return IntSub(v)
+    raise InfraError("unknown value kind %r" % (vk,))
 
 
 class ReadError(object):
@@ -236,90 +327,151 @@ class Unraisable(object):
         self.n += 1
 
 
+ZERO = "zero"      # image background of a fresh ffi.new() object
+SLICE_FIRST = 1    # the accepted first item of the two-item slice stores (in every type's range)
+
+
 def paths_for(u, t, errval):
-    """Return [(path name, kind, fn)].
+    """Return [(path name, kind, fn, opts)].
 
     kind 'mem': fn(v) performs the store on a location whose surroundings are observable and returns
-        (exc or None, readback or None, image bytes of guard+target+guard or None, target offset)
-    kind 'new': fn(v) allocates with an initializer and returns (exc, readback, image, offset)
+        (exc or None, readback or None, image bytes of guard+target+guard or None, where[, complaint])
+        where = offset of the target in an image pre-filled with BG, or (offset, ZERO) for a zero background;
+        complaint = None or a text about memory outside the image (two-item slices)
+    kind 'new': fn(v) allocates with an initializer and returns (exc, readback, image, where)
     kind 'call': fn(v) -> (exc, result, received by C, number of calls made)
-    kind 'cb': fn(v) -> (exc, result seen by python caller, value received by the C caller), with error value
+    kind 'va': like 'call', v travels inside a cdata (in-range values only)
+    kind 'cb': fn(v) -> (exc, result seen by python caller, value received by the C caller); opts: err = the
+        error value, repl = what the onerror handler returns (absent: no handler), arm = function to call first
+    kind 'cberr': fn(v) creates a callback with error=v whose function fails, calls it from C and returns
+        (exc of the creation, result, value received by the C caller)
     """
     i = ident(t)
     size, sg = u.facts[t]
+    lo, hi = cref.int_range(size, sg, t == "_Bool")
     P = []
     fill = bytes([BG])
     img_len = 2 * GUARD + size
+    modes = modes_of(t)
 
-    for kind, ffi in (("inline", u.abi_ffi), ("ool", u.ool_ffi), ("api", u.api_ffi)):
-        def new_ptr(v, ffi=ffi):
+    def add(name, kind, fn, **opts):
+        P.append((name, kind, fn, opts))
+
+    def mk_new(ffi, ctype, init, read, where):
+        def new(v):
             try:
-                p = ffi.new(t + " *", v)
+                p = ffi.new(ctype, init(v))
             except Exception as e:
-                return e, None, None, 0
-            return None, _rd(lambda: p[0]), bytes(ffi.buffer(p)), 0
+                return e, None, None, where
+            return None, _rd(lambda: read(p)), bytes(ffi.buffer(p)), where
+        return new
 
-        def new_arr(v, ffi=ffi):
-            try:
-                p = ffi.new(t + "[1]", [v])
-            except Exception as e:
-                return e, None, None, 0
-            return None, _rd(lambda: p[0]), bytes(ffi.buffer(p)), 0
+    for kind in modes:
+        ffi = u.ffi_lib(kind)[0]
+        s_ = "struct s_%s *" % i
+        sa_ = "struct sa_%s *" % i
+        u_ = "union u_%s *" % i
+        item0 = lambda p: p[0]
+        fld = lambda p: p.f
+        for name, ctype, init, read, where in (
+                ("new_ptr", t + " *", lambda v: v, item0, 0),
+                ("new_array", t + "[1]", lambda v: [v], item0, 0),
+                ("new_struct", s_, lambda v: {"f": v}, fld, (GUARD, ZERO)),
+                # container forms of the initializer: each is a separate branch of convert_struct_from_object /
+                # convert_array_from_object
+                ("new_array_tuple", t + "[1]", lambda v: (v,), item0, 0),
+                ("new_array_open", t + "[]", lambda v: [v], item0, 0),
+                ("new_struct_list", s_, lambda v: [b"", v], fld, (GUARD, ZERO)),
+                ("new_struct_tuple", s_, lambda v: (b"", v), fld, (GUARD, ZERO)),
+                ("new_union_dict", u_, lambda v: {"f": v}, fld, (0, ZERO)),
+                ("new_union_list", u_, lambda v: [v], fld, (0, ZERO)),
+                ("new_structarr_dict", sa_, lambda v: {"a": [v]}, lambda p: p.a[0], (GUARD, ZERO)),
+                ("new_structarr_list", sa_, lambda v: [b"", [v]], lambda p: p.a[0], (GUARD, ZERO))):
+            add("%s/%s" % (name, kind), "new", mk_new(ffi, ctype, init, read, where))
 
-        def new_struct(v, ffi=ffi):
-            try:
-                p = ffi.new("struct s_%s *" % i, {"f": v})
-            except Exception as e:
-                return e, None, None, 0
-            return None, _rd(lambda: p.f), bytes(ffi.buffer(p)), None       # None: zero-filled background
-
-        arr = ffi.new(t + "[]", 2 * (GUARD // size) + 1)
+        g = GUARD // size
+        arr = ffi.new(t + "[]", 2 * g + 1)
         abuf = ffi.buffer(arr)
-        aidx = GUARD // size
+        ptr = ffi.cast(t + " *", arr) + g
 
-        def setitem(v, arr=arr, abuf=abuf, aidx=aidx):
-            abuf[:] = fill * len(abuf)
+        def mk_mem(store, read, abuf=abuf):
+            def mem(v):
+                abuf[:] = fill * len(abuf)
+                try:
+                    store(v)
+                except Exception as e:
+                    return e, None, bytes(abuf), GUARD
+                return None, _rd(read), bytes(abuf), GUARD
+            return mem
+
+        def st_item(v, arr=arr, g=g):
+            arr[g] = v
+
+        def st_deref(v, ptr=ptr):
+            ptr[0] = v
+
+        def st_slice_list(v, arr=arr, g=g):
+            arr[g:g + 1] = [v]
+
+        def st_slice_tuple(v, arr=arr, g=g):
+            arr[g:g + 1] = (v,)
+
+        def st_slice_iter(v, arr=arr, g=g):
+            arr[g:g + 1] = iter([v])
+
+        def st_slice_ptr(v, ptr=ptr):
+            ptr[0:1] = [v]
+
+        rd_item = lambda arr=arr, g=g: arr[g]
+        rd_ptr = lambda ptr=ptr: ptr[0]
+        add("setitem/" + kind, "mem", mk_mem(st_item, rd_item))
+        add("deref/" + kind, "mem", mk_mem(st_deref, rd_ptr))
+        add("setslice_list/" + kind, "mem", mk_mem(st_slice_list, rd_item))
+        add("setslice_tuple/" + kind, "mem", mk_mem(st_slice_tuple, rd_item))
+        add("setslice_iter/" + kind, "mem", mk_mem(st_slice_iter, rd_item))
+        add("setslice_ptr/" + kind, "mem", mk_mem(st_slice_ptr, rd_ptr))
+
+        # two-item slice [accepted, v]: the judged target is the second item.  The first item may or may not have
+        # been written when the second is rejected (the statement is silent on the order), but it must hold either
+        # its old bytes or the accepted value, and it is cut out of the image that the common oracle sees.
+        arr2 = ffi.new(t + "[]", 2 * g + 2)
+        abuf2 = ffi.buffer(arr2)
+
+        def slice_pair(v, arr2=arr2, abuf2=abuf2, g=g):
+            abuf2[:] = fill * len(abuf2)
+            exc = rb = None
             try:
-                arr[aidx] = v
+                arr2[g:g + 2] = [SLICE_FIRST, v]
             except Exception as e:
-                return e, None, bytes(abuf), GUARD
-            return None, _rd(lambda: arr[aidx]), bytes(abuf), GUARD
-
-        ptr = ffi.cast(t + " *", arr) + aidx
-
-        def deref(v, ptr=ptr, abuf=abuf):
-            abuf[:] = fill * len(abuf)
-            try:
-                ptr[0] = v
-            except Exception as e:
-                return e, None, bytes(abuf), GUARD
-            return None, _rd(lambda: ptr[0]), bytes(abuf), GUARD
+                exc = e
+            else:
+                rb = _rd(lambda: arr2[g + 1])
+            whole = bytes(abuf2)
+            first = whole[GUARD:GUARD + size]
+            allowed = [encode(SLICE_FIRST, size)] + ([fill * size] if exc is not None else [])
+            complaint = None if first in allowed else "first item holds %s" % first.hex()
+            return exc, rb, whole[:GUARD] + whole[GUARD + size:], GUARD, complaint
+        add("setslice_pair/" + kind, "mem", slice_pair)
 
         st = ffi.new("struct s_%s *" % i)
         sbuf = ffi.buffer(st)
         if len(sbuf) != img_len:
             raise InfraError("struct s_%s has size %d, expected %d" % (i, len(sbuf), img_len))
 
-        def field(v, st=st, sbuf=sbuf):
-            sbuf[:] = fill * img_len
-            try:
-                st.f = v
-            except Exception as e:
-                return e, None, bytes(sbuf), GUARD
-            return None, _rd(lambda: st.f), bytes(sbuf), GUARD
-
-        P += [("new_ptr/" + kind, "new", new_ptr), ("new_array/" + kind, "new", new_arr),
-              ("new_struct/" + kind, "new", new_struct), ("setitem/" + kind, "mem", setitem),
-              ("deref/" + kind, "mem", deref), ("field/" + kind, "mem", field)]
+        def st_field(v, st=st):
+            st.f = v
+        add("field/" + kind, "mem", mk_mem(st_field, lambda st=st: st.f, abuf=sbuf))
 
     wimg = (ctypes.c_ubyte * img_len).in_dll(u.cdll, "w_" + i)
     waddr = ctypes.addressof(wimg)
     recty = ctypes.c_longlong if sg else ctypes.c_ulonglong
     rec = recty.in_dll(u.cdll, "rec_" + i)
     ncalls = ctypes.c_int.in_dll(u.cdll, "ncalls_" + i)
-    sentinel = -0x5A5A5A5A5A5A5A5B if sg else 0xA5A5A5A5A5A5A5A5
+    sentinel = sentinel_of(sg)
 
-    for kind, lib in (("inline", u.abi_lib), ("ool", u.ool_lib), ("api", u.api_lib)):
+    for kind in modes:
+        lib = u.ffi_lib(kind)[1]
+
         def glob(v, lib=lib):
             ctypes.memset(waddr, BG, img_len)
             try:
@@ -327,7 +479,7 @@ def paths_for(u, t, errval):
             except Exception as e:
                 return e, None, bytes(wimg), GUARD
             return None, _rd(lambda: getattr(lib, "g_" + i)), bytes(wimg), GUARD
-        P.append(("global/" + kind, "mem", glob))
+        add("global/" + kind, "mem", glob)
 
     def mk_call(f):
         def call(v):
@@ -340,51 +492,130 @@ def paths_for(u, t, errval):
             return None, r, rec.value, ncalls.value - n0
         return call
 
-    P.append(("arg/api", "call", mk_call(getattr(u.api_lib, "id_" + i))))
-    P.append(("arg/api_addressof", "call", mk_call(u.api_ffi.addressof(u.api_lib, "id_" + i))))
-    P.append(("arg/inline", "call", mk_call(getattr(u.abi_lib, "id_" + i))))
-    P.append(("arg/ool", "call", mk_call(getattr(u.ool_lib, "id_" + i))))
-    P.append(("arg/inline_addressof", "call", mk_call(u.abi_ffi.addressof(u.abi_lib, "id_" + i))))
+    def fns(name):
+        """[(mode label, callable)] of one C function: the library attribute in each mode and addressof() of it."""
+        out = []
+        for kind in modes:
+            ffi, lib = u.ffi_lib(kind)
+            out.append((kind, getattr(lib, name)))
+            if kind in ("api", "inline"):
+                out.append((kind + "_addressof", ffi.addressof(lib, name)))
+        order = ["api", "api_addressof", "inline", "ool", "inline_addressof"]
+        return sorted(out, key=lambda e: order.index(e[0]))
 
-    for kind, ffi, lib in (("inline", u.abi_ffi, u.abi_lib), ("api", u.api_ffi, u.api_lib)):
+    for kind, f in fns("id_" + i):
+        add("arg/" + kind, "call", mk_call(f))
+
+    for kind in modes:
+        if kind == "ool":
+            continue
+        ffi, lib = u.ffi_lib(kind)
         vf = getattr(lib, "va_" + i)
-        P.append(("vararg_cdata/" + kind, "va",
-                  mk_call(lambda v, ffi=ffi, vf=vf: vf(1, ffi.cast(t, v)))))
+        add("vararg_cdata/" + kind, "va", mk_call(lambda v, ffi=ffi, vf=vf: vf(1, ffi.cast(t, v))))
+
+    # argument shapes: 8th argument (on the stack for libffi; PyArg_UnpackTuple + per-argument conversion in the
+    # API wrapper), the declared argument of a variadic function (per-call cif; libffi also in API mode)
+    for kind, f in fns("last_" + i):
+        if kind != "inline_addressof":
+            add("arg_last/" + kind, "call", mk_call(lambda v, f=f: f(1, 2, 3, 4, 5, 6, 7, v)))
+    for kind in modes:
+        ffi, lib = u.ffi_lib(kind)
+        f = getattr(lib, "fx_" + i)
+        extra = ffi.cast("int", 3)
+        add("arg_fixed_of_variadic/%s/no_extra" % kind, "call", mk_call(f))
+        add("arg_fixed_of_variadic/%s/one_extra" % kind, "call", mk_call(lambda v, f=f, extra=extra: f(v, extra)))
+    # a list / tuple passed for a 'T *' parameter: v is stored into a temporary T[1]
+    for kind, f in fns("first_" + i):
+        if kind != "inline_addressof":
+            add("ptrarg_list/" + kind, "call", mk_call(lambda v, f=f: f([v])))
+        if kind in ("api", "inline"):
+            add("ptrarg_tuple/" + kind, "call", mk_call(lambda v, f=f: f((v,))))
 
     box = [0]
+    hbox = [None, 0]
 
     def ret():
         return box[0]
 
-    for kind, ffi, lib in (("inline", u.abi_ffi, u.abi_lib), ("api", u.api_ffi, u.api_lib)):
-        for ename, kw in (("default", {}), ("error", {"error": errval})):
-            cb = ffi.callback("%s(void)" % t, ret, **kw)
+    def handler(exc, val, tb):
+        hbox[1] += 1
+        return hbox[0]
+
+    # (variant name, keywords, value returned by the onerror handler); hi + 2**64 is congruent to hi: a handler
+    # result stored without a range check would arrive as hi
+    variants = [("default", {}, ()), ("error", {"error": errval}, ())]
+    for hname, repl in (("onerror_none", None), ("onerror_lo", lo), ("onerror_hi", hi), ("onerror_below", lo - 1),
+                        ("onerror_above", hi + 1), ("onerror_wrap64", hi + (1 << 64))):
+        variants.append((hname, {"error": errval, "onerror": handler}, (repl,)))
+
+    cb_modes = [m for m in modes if m != "ool"]
+    for kind in cb_modes:
+        ffi, lib = u.ffi_lib(kind)
+        for ename, kw, repl in variants:
             caller = getattr(lib, "call_cb_" + i)
 
-            def call_cb(v, cb=cb, caller=caller):
+            def call_cb(v, ffi=ffi, kw=kw, caller=caller, repl=repl, cell=[]):
                 box[0] = v
+                hbox[0] = repl[0] if repl else None
                 rec.value = sentinel
                 try:
-                    r = caller(cb)
+                    if not cell:        # created on first use: a refused (in-range) error= value is a finding
+                        cell.append(ffi.callback("%s(void)" % t, ret, **kw))
+                    r = caller(cell[0])
                 except Exception as e:
                     return e, None, rec.value
                 return None, r, rec.value
-            P.append(("callback_result/%s/%s" % (kind, ename), ("cb", kw.get("error", 0)), call_cb))
+            add("callback_result/%s/%s" % (kind, ename), "cb", call_cb, err=kw.get("error", 0),
+                **({"repl": repl[0]} if repl else {}))
 
-    # extern "Python": one C function, re-registered for the two error settings
-    for ename, kw in (("default", {}), ("error", {"error": errval})):
-        def call_ep(v, kw=kw):
+    # extern "Python": one C function, re-registered for each setting
+    def call_ep():
+        rec.value = sentinel
+        try:
+            r = getattr(u.api_lib, "call_ep_" + i)()
+        except Exception as e:
+            return e, None, rec.value
+        return None, r, rec.value
+
+    for ename, kw, repl in variants:
+        def run_ep(v, repl=repl):
             box[0] = v
-            rec.value = sentinel
-            try:
-                r = getattr(u.api_lib, "call_ep_" + i)()
-            except Exception as e:
-                return e, None, rec.value
-            return None, r, rec.value
+            hbox[0] = repl[0] if repl else None
+            return call_ep()
 
         def arm(kw=kw):
             u.api_ffi.def_extern(name="ep_" + i, **kw)(ret)
-        P.append(("extern_python_result/" + ename, ("cb", kw.get("error", 0), arm), call_ep))
+        add("extern_python_result/" + ename, "cb", run_ep, err=kw.get("error", 0), arm=arm,
+            **({"repl": repl[0]} if repl else {}))
+
+    # the error= value itself is an integer store into a T result slot; the function fails by returning hi+1
+    def ret_bad():
+        return hi + 1
+
+    for kind in cb_modes:
+        ffi, lib = u.ffi_lib(kind)
+        caller = getattr(lib, "call_cb_" + i)
+
+        def cb_error_value(v, ffi=ffi, caller=caller):
+            rec.value = sentinel
+            try:
+                cb = ffi.callback("%s(void)" % t, ret_bad, error=v)
+            except Exception as e:
+                return e, None, rec.value
+            r = _rd(lambda: caller(cb))
+            return None, r, rec.value
+        add("callback_error_value/" + kind, "cberr", cb_error_value)
+
+    def ep_error_value(v):
+        rec.value = sentinel
+        try:
+            u.api_ffi.def_extern(name="ep_" + i, error=v)(ret_bad)
+        except Exception as e:
+            return e, None, rec.value
+        e, r, received = call_ep()
+        return None, (r if e is None else ReadError(e)), received
+    add("extern_python_error_value", "cberr", ep_error_value,
+        arm=lambda: u.api_ffi.def_extern(name="ep_" + i)(ret_bad))
     return P
 
 
@@ -406,13 +637,21 @@ def values_for(lo, hi, size, tier_quick):
     return sorted(vals)
 
 
+def cases_for(lo, hi, size, tier_quick):
+    """[(value kind, value)]: every value as an exact int; False/True and an int subclass at the bounds."""
+    out = [("int", v) for v in values_for(lo, hi, size, tier_quick)]
+    out += [("bool", 0), ("bool", 1)]
+    out += [("intsub", v) for v in sorted({lo - 1, lo, 0, 1, hi, hi + 1, hi + (1 << 64)})]
+    return out
+
+
 def check_type(u, t, quick, only_path=None, only_values=None):
     """Run every path x value for one type.  Returns (ncases, histogram dict, nontrivial count, bad list)."""
     size, sg = u.facts[t]
     lo, hi = cref.int_range(size, sg, t == "_Bool")
     tc = type_class(t, size, sg)
     errval = 1 if t == "_Bool" else (hi - 41)
-    vals = only_values if only_values is not None else values_for(lo, hi, size, quick)
+    vals = only_values if only_values is not None else cases_for(lo, hi, size, quick)
     hist = {}
     bad = []
     n = nontriv = 0
@@ -423,18 +662,26 @@ def check_type(u, t, quick, only_path=None, only_values=None):
     def cnt(k, c=1):
         hist[k] = hist.get(k, 0) + c
 
-    def viol(kind, path, v, **info):
-        info.update(type=t, path=path, value=v, kind=kind)
-        bad.append(({"kind": kind, "path": path, "type_class": tc, "value_class": value_class(v, lo, hi)}, info))
+    def viol(kind, path, vk, v, **info):
+        info.update(type=t, path=path, value=v, value_kind=vk, kind=kind)
+        sig = {"kind": kind, "path": path, "type_class": tc, "value_class": value_class(v, lo, hi)}
+        if vk != "int":
+            sig["value_kind"] = vk
+        bad.append((sig, info))
 
     try:
-        for path, kind, fn in paths_for(u, t, errval):
+        for path, kname, fn, opts in paths_for(u, t, errval):
             if only_path is not None and path != only_path:
                 continue
-            if isinstance(kind, tuple) and len(kind) == 3:
-                kind[2]()                       # (re-)register the extern "Python" function
-            kname = kind[0] if isinstance(kind, tuple) else kind
-            for v in vals:
+            if "arm" in opts:
+                try:
+                    opts["arm"]()                   # (re-)register the extern "Python" function
+                except Exception as e:
+                    viol("extern-python-registration-raised", path, "int", errval,
+                         error="%s: %s" % (type(e).__name__, e))
+                    continue
+            family = path.split("/")[0]
+            for vk, v in vals:
                 ok_expected = lo <= v <= hi
                 vc = value_class(v, lo, hi)
                 if kname == "va" and not ok_expected:
@@ -444,66 +691,92 @@ def check_type(u, t, quick, only_path=None, only_values=None):
                 if not ok_expected or v in (lo, hi):
                     nontriv += 1
                 cnt("%s:%s" % (tc, vc))
-                res = fn(v)
+                if vk != "int":
+                    cnt("value_kind=%s:%s" % (vk, "accept" if ok_expected else "reject"))
+                res = fn(make_obj(vk, v))
                 exc = res[0]
-                if kname in ("cb",):
+                if kname == "cb":
                     # the store is the conversion of the callback's result; the C caller observes it
-                    err = kind[1]
-                    want = v if ok_expected else err
-                    cnt("%s:%s" % (path.split("/")[0], "result_passed" if ok_expected else "error_value"))
+                    err = opts["err"]
+                    if ok_expected:
+                        want, how = v, "result_passed"
+                    elif "repl" not in opts:
+                        want, how = err, "error_value"
+                    else:
+                        # the onerror handler ran: None keeps the error value, an int replaces it iff it fits
+                        # (its conversion is one more store into the result slot, rejected => slot unchanged)
+                        repl = opts["repl"]
+                        if repl is not None and lo <= repl <= hi:
+                            want, how = repl, "onerror_value_passed"
+                        else:
+                            want, how = err, ("error_value_after_onerror_none" if repl is None else
+                                              "error_value_after_onerror_value_rejected")
+                    cnt("%s:%s" % (family, how))
                     if exc is not None:
-                        viol("callback-call-raised", path, v, error="%s: %s" % (type(exc).__name__, exc))
+                        viol("callback-call-raised", path, vk, v, error="%s: %s" % (type(exc).__name__, exc))
                         continue
                     if res[2] != want:
                         viol("callback-c-caller-received" + ("" if ok_expected else "-instead-of-error-value"),
-                             path, v, received=res[2], expected=want, error_value=err)
+                             path, vk, v, received=res[2], expected=want, error_value=err,
+                             **({"onerror_returns": opts["repl"]} if "repl" in opts else {}))
                     elif res[1] != want:
-                        viol("callback-result-readback", path, v, got=res[1], expected=want)
+                        viol("callback-result-readback", path, vk, v, got=repr(res[1]), expected=want)
                     continue
-                cnt("%s:%s" % (path.split("/")[0], "accept" if ok_expected else "reject"))
+                cnt("%s:%s" % (family, "accept" if ok_expected else "reject"))
                 if isinstance(exc, AttributeError) and path.startswith("global/"):
                     # the variable cannot even be reached through this library object: a different root
                     # cause than a wrong range check, classified separately
-                    viol("variable-inaccessible", path, v, error="%s: %s" % (type(exc).__name__, exc))
+                    viol("variable-inaccessible", path, vk, v, error="%s: %s" % (type(exc).__name__, exc))
                     continue
                 if exc is not None and not isinstance(exc, OverflowError):
-                    viol("wrong-exception", path, v, error="%s: %s" % (type(exc).__name__, exc))
+                    viol("wrong-exception", path, vk, v, error="%s: %s" % (type(exc).__name__, exc))
                     continue
                 if exc is None and not ok_expected:
-                    viol("accepts-out-of-range", path, v, range=[lo, hi], readback=repr(res[1]))
+                    viol("accepts-out-of-range", path, vk, v, range=[lo, hi], readback=repr(res[1]))
                     continue
                 if exc is not None and ok_expected:
-                    viol("rejects-in-range", path, v, range=[lo, hi], error=str(exc))
+                    viol("rejects-in-range", path, vk, v, range=[lo, hi], error=str(exc))
+                    continue
+                if kname == "cberr":
+                    if exc is None:
+                        # accepted error value: it is what the C caller gets when the function's result is bad
+                        if res[2] != v:
+                            viol("error-value-c-caller-received", path, vk, v, received=res[2])
+                        elif res[1] != v:
+                            viol("error-value-readback", path, vk, v, got=repr(res[1]))
                     continue
                 if kname in ("call", "va"):
                     _, r, received, ncall = res
                     if exc is not None:
                         if ncall != 0 or received != (sentinel_of(sg)):
-                            viol("rejected-but-called", path, v, received=received, calls=ncall)
+                            viol("rejected-but-called", path, vk, v, received=received, calls=ncall)
                         continue
                     if ncall != 1:
-                        viol("call-count", path, v, calls=ncall)
+                        viol("call-count", path, vk, v, calls=ncall)
                     if received != v:
-                        viol("c-received", path, v, received=received)
+                        viol("c-received", path, vk, v, received=received)
                     elif r != v:
-                        viol("readback", path, v, got=r)
+                        viol("readback", path, vk, v, got=r)
                     continue
-                _, rb, img, off = res
+                _, rb, img, where = res[:4]
+                if len(res) > 4 and res[4] is not None:
+                    viol("slice-first-item", path, vk, v, problem=res[4])
                 if exc is not None:
                     if img is not None and img != bytes([BG]) * len(img):
-                        viol("rejected-but-modified", path, v, image=img.hex())
+                        viol("rejected-but-modified", path, vk, v, image=img.hex())
                     continue
                 if rb != v:
-                    viol("readback", path, v, got=repr(rb))
+                    viol("readback", path, vk, v, got=repr(rb))
                 bgb = BG
-                if off is None:              # zero-initialised struct from ffi.new
-                    off, bgb = GUARD, 0
+                off = where
+                if isinstance(where, tuple):              # zero-initialised object from ffi.new
+                    off, bgb = where[0], 0
                 tgt = img[off:off + size]
                 rest = img[:off] + img[off + size:]
                 if tgt != encode(v, size):
-                    viol("image", path, v, image=img.hex(), expected=encode(v, size).hex())
+                    viol("image", path, vk, v, image=img.hex(), expected=encode(v, size).hex())
                 if rest != bytes([bgb]) * len(rest):
-                    viol("neighbour-modified", path, v, image=img.hex())
+                    viol("neighbour-modified", path, vk, v, image=img.hex())
     finally:
         sys.unraisablehook = old_hook
     cnt("unraisable_reports_from_bad_callback_results", hook.n)
@@ -524,7 +797,8 @@ def work(t):
 
 def run(ctx):
     global _U, _QUICK
-    types = all_types()
+    std_types = all_types()
+    types = std_types + api_only_types()
     facts = measure(types)
     _QUICK = ctx.quick
     ctx.log("building the universe modules for %d types" % len(types))
@@ -536,17 +810,20 @@ def run(ctx):
     # what cffi believes about the types must agree with gcc for the oracle to apply at all
     for t in types:
         u = _U[t]
-        for kind, ffi in (("inline", u.abi_ffi), ("ool", u.ool_ffi), ("api", u.api_ffi)):
+        for kind in modes_of(t):
+            ffi = u.ffi_lib(kind)[0]
             if ffi.sizeof(t) != facts[t][0]:
                 ctx.violation({"kind": "sizeof", "ffi": kind, "type_class": type_class(t, *facts[t])},
                               {"type": t, "kind": "sizeof", "cffi": ffi.sizeof(t), "gcc": facts[t][0]})
+            elif t != "_Bool" and (int(ffi.cast(t, -1)) < 0) != facts[t][1]:
+                ctx.violation({"kind": "signedness", "ffi": kind, "type_class": type_class(t, *facts[t])},
+                              {"type": t, "kind": "signedness", "cffi": int(ffi.cast(t, -1)) < 0, "gcc": facts[t][1]})
     total = nontrivial = 0
-    npaths = None
     # thorough: the 1- and 2-byte types carry the long sweeps, start them first
     order = types if ctx.quick else sorted(types, key=lambda t: (facts[t][0], types.index(t)))
     results = {}
     # the quick tier is a few CPU-seconds of work: more than a handful of workers costs more than it saves
-    for t, r in pool.pmap(work, [[t] for t in order], nproc=min(pool.NPROC, 4) if ctx.quick else None):
+    for t, r in pool.pmap(work, [[t] for t in order], nproc=min(pool.NPROC, 6) if ctx.quick else None):
         if isinstance(r, pool.WorkerError):
             raise InfraError(r.tb)
         results[t] = r
@@ -561,22 +838,33 @@ def run(ctx):
         nontrivial += nt
         for k, c in hist.items():
             ctx.count(k, c)
-        for sig, info in sorted(bad, key=lambda b: (abs(b[1]["value"]), b[1]["path"], b[1]["value"], b[1]["kind"])):
+        for sig, info in sorted(bad, key=lambda b: (abs(b[1]["value"]), b[1]["path"], b[1]["value"],
+                                                     b[1]["value_kind"], b[1]["kind"])):
             ctx.violation(sig, info)
         size, sg = facts[t]
         lo, hi = cref.int_range(size, sg, t == "_Bool")
-        ctx.sample({"type": t, "range": [lo, hi], "values": len(values_for(lo, hi, size, ctx.quick)),
+        ctx.sample({"type": t, "range": [lo, hi], "values": len(cases_for(lo, hi, size, ctx.quick)),
                     "example_value": hi + 1})
     npaths = len(paths_for(_U["int"], "int", 1))
+    npaths_api = len(paths_for(_U["c03_s2_t"], "c03_s2_t", 1))
     cov = {
         "evaluations": total,
         "distinct_nontrivial": nontrivial,
         "types": len(types),
         "paths": npaths,
+        "paths_of_api_only_types": npaths_api,
         "rule": "every integer type name in cffi's primitive table + _Bool + 4 enums (signed/unsigned x 4/8 bytes) x "
-                "every store path x %s; the variadic-cdata path only for in-range values (a cdata cannot hold another); "
+                "every store path (%d), and 8 'typedef int... T' + 4 partial enums x every API-mode store path (%d), x "
+                "%s, each as an exact int, plus False/True and an int subclass at {lo-1, lo, 0, 1, hi, hi+1, hi+2^64}; "
+                "store paths include slice assignment (list, tuple, iterator, pointer, two-item with rejected second "
+                "item), initializer container forms (array tuple/open length, struct list/tuple, union dict/list, "
+                "array member dict/list), argument shapes (8th argument, fixed argument of a variadic function "
+                "with/without extra arguments, list/tuple for a T* parameter), callback / extern \"Python\" results "
+                "with onerror handlers returning None, lo, hi, lo-1, hi+1, hi+2^64, and error= values themselves; "
+                "the variadic-cdata path only for in-range values (a cdata cannot hold another); "
                 "non-trivial = the expected outcome is rejection or v is exactly a range bound (distinct (type, path, "
-                "value) triples)" % (
+                "value kind, value) tuples)" % (
+                    npaths, npaths_api,
                     "B(T) = {lo-1,lo,lo+1,-2..2,hi-1,hi,hi+1} + {+-2^k, +-2^k+-1 : k in 7,8,15,16,31,32,63,64,65,127,128}"
                     " + {+-10^30}" if ctx.quick else
                     "B(T) + the bounds of every width +-40 + every +-2^k+-{0,1} for k<=130 + every integer in "
@@ -585,12 +873,17 @@ def run(ctx):
         "bound": {"values": "B(T)" if ctx.quick else "B(T)+dense bands+full 17-bit sweep for small types"},
     }
     return ctx.finish(cov, [
-        "gcc 12 on this machine measures sizeof/signedness of every type (including the enums); ranges follow from them",
+        "gcc 12 on this machine measures sizeof/signedness of every type (including the enums and the C side of the "
+        "'typedef int...' / partial enum types); ranges follow from them",
         "ctypes reads the memory of the global variables and the value recorded by the C functions",
         "the globals are placed between two 8-byte guards with an assembler alias (g_T = w_T+8)",
         "the generated universe module is compiled with %s; the backend always with the shipped flags" % (
             "the default flags + -O0 (quick tier)" if ctx.quick else "the default flags of a user's build"),
-        "little-endian two's complement byte images (sys.byteorder)"])
+        "little-endian two's complement byte images (sys.byteorder)",
+        "when the second item of a two-item slice store is rejected, the first item may hold either its old bytes or "
+        "the accepted value (the statement does not fix the order)",
+        "an onerror handler's int result is judged as one more store into the result slot: it replaces the error "
+        "value iff it is in range"])
 
 
 def replay(detail):
@@ -598,19 +891,31 @@ def replay(detail):
     if "path" not in detail:
         import cffi
         print("%s of %s: cffi %r" % (detail["kind"], t, detail.get("cffi", detail.get("how"))))
-        if detail["kind"] == "sizeof":
+        if detail["kind"] == "sizeof" and t not in APIDEFS:
             f = cffi.FFI()
             f.cdef("".join(ENUMS.values()))
             now = f.sizeof(t)
             print("now: cffi %d, gcc %d" % (now, measure([t])[t][0]))
             return 1 if now != measure([t])[t][0] else 0
+        if detail["kind"] == "sizeof":
+            facts = measure([t])
+            now = build_universes([t], facts, "replay")[t].api_ffi.sizeof(t)
+            print("now: cffi %d, gcc %d" % (now, facts[t][0]))
+            return 1 if now != facts[t][0] else 0
+        if detail["kind"] == "signedness":
+            facts = measure([t])
+            u = build_universes([t], facts, "replay")[t]
+            now = [int(u.ffi_lib(m)[0].cast(t, -1)) < 0 for m in modes_of(t)]
+            print("now: cffi signed=%r, gcc signed=%r" % (now, facts[t][1]))
+            return 1 if any(x != facts[t][1] for x in now) else 0
         return 1
     types = [t]
     facts = measure(types)
     u = build_universes(types, facts, "replay")[t]
-    n, hist, nt, bad = check_type(u, t, True, only_path=detail["path"], only_values=[detail["value"]])
-    print("type %s (size %d, %s), path %s, value %d" % (t, facts[t][0], "signed" if facts[t][1] else "unsigned",
-                                                          detail["path"], detail["value"]))
+    vk = detail.get("value_kind", "int")
+    n, hist, nt, bad = check_type(u, t, True, only_path=detail["path"], only_values=[(vk, detail["value"])])
+    print("type %s (size %d, %s), path %s, value %d (%s)" % (t, facts[t][0], "signed" if facts[t][1] else "unsigned",
+                                                               detail["path"], detail["value"], vk))
     for sig, info in bad:
         print("MISMATCH", info)
     if not bad:
